@@ -65,6 +65,7 @@ type Out struct {
 	NGrants     int                `json:"n_grants"`
 	Foreign     int64              `json:"foreign_hook_calls,omitempty"`
 	SharedMut   string             `json:"shared_buffer_mutated,omitempty"`
+	IdleBytes   string             `json:"idle_device_delivered,omitempty"` // hex: bytes read by goroutines that are not tasks
 }
 
 func die(code int, f string, a ...interface{}) {
@@ -73,7 +74,7 @@ func die(code int, f string, a ...interface{}) {
 }
 
 // Main runs the worker; install puts the per-task devices in front of NewMnemonic.
-func Main(install func(devs []*dev.Dev)) {
+func Main(install func(devs []*dev.Dev), idle *dev.Safe) {
 	if len(os.Args) != 3 {
 		die(3, "usage: schedsim plan.json out.json")
 	}
@@ -172,6 +173,9 @@ func Main(install func(devs []*dev.Dev)) {
 	if res.Deadlock == "" && !res.StepCap && res.Protocol == "" {
 		wg.Wait() // the only happens-before edge the harness adds: task end -> main
 		out.Outcomes, out.Delivered, out.Reads = outcomes, delivered, reads
+		if b := idle.DeliveredCopy(); len(b) > 0 {
+			out.IdleBytes = hex.EncodeToString(b)
+		}
 		for i := range sharedCopy {
 			if string(sharedCopy[i]) != string(worker.SharedBufs[i]) {
 				out.SharedMut = fmt.Sprintf("caller buffer %d, shared read-only by several goroutines, was modified by the library", i+1)
